@@ -7,8 +7,10 @@ patch=$(realpath "$1"); demo=$2; shift 2
 [ "$demo" != "-" ] && demo=$(realpath "$demo")
 d=$(mktemp -d /tmp/j1939mut.XXXXXX)
 c=$(mktemp -d /tmp/j1939clean.XXXXXX)
-git -C /repo archive HEAD | tar -x -C "$d"
-git -C /repo archive HEAD | tar -x -C "$c"
+base=${BASE_REV:-HEAD}      # BASE_REV=<commit>: the change was written against an older commit (a later fix: commit touches the same lines)
+git -C /repo archive "$base" | tar -x -C "$d"
+git -C /repo archive "$base" | tar -x -C "$c"
+echo "== base $(git -C /repo rev-parse --short "$base")"
 (cd "$d" && patch -p1 -s < "$patch") || { echo "RESULT patch-does-not-apply"; rm -rf "$d" "$c"; exit 3; }
 echo "== test suite with the patch"
 (cd "$d" && timeout 900 /venv/bin/python -m pytest -q -p no:cacheprovider --timeout=900 2>&1 | tail -2)
